@@ -78,6 +78,7 @@ def check(ctx):
     check_factories(ctx, ci)
     check_validator(ctx)
     check_builder_records_all(ctx)
+    check_node_identity(ctx, ('taxonomy.',), floor=3)
 
 
 # ----------------------------------------------------------------------
@@ -745,3 +746,20 @@ def check_builder_records_all(ctx):
         ctx.ob(rule, 'get_taxonomy_tree:links-per-row', fi.loc(), ok,
                'links are recorded for every row' if ok else
                'the link loop is no longer inside the loop over rows')
+
+
+def check_node_identity(ctx, modules, rule='R-KEY/node-identity', floor=1):
+    """tables filled inside a loop over the taxonomy levels are keyed by
+    (level, label), never by label alone (sa/rules/nodekeys.py)"""
+    from ..rules.nodekeys import check_node_keys
+    n = 0
+    for fi in ctx.db.iter_functions():
+        if fi.module.short.startswith(tuple(modules)):
+            n += check_node_keys(ctx, fi, rule)
+    if n < floor:
+        raise AnalysisError(f'only {n} keyed stores inside loops over the '
+                            f'levels found in {modules}')
+    ctx.ok(rule, '+'.join(modules), 'package',
+           f'{n} keyed stores inside loops over the taxonomy levels '
+           'examined: every key chain contains the level',
+           nontrivial=True)
